@@ -21,7 +21,8 @@ RULE = ("one value per case, printed in both modes and consumed in every way a c
         "whose one-line length is the threshold -2..+2 at every even offset 0..40, dicts/lists where a *prefix* of the "
         "sorted entries reaches the threshold -6..+3 and more entries follow, wrapped lists with lines that reach the "
         "wrap limit -1..+2, one item of the width of an empty line -3..+3 / longer at the first, a middle, the last, "
-        "the only position, long keys and values in dicts, nesting depth 30..101 (offsets beyond both limits) in both "
+        "the only position, long keys and values in dicts, containers of 255..258, 300, 1000, 5000 items / keys (lists of containers, of "
+        "scalars, dicts with container values, mixed; sizes beyond the small-int cache), nesting depth 30..101 (offsets beyond both limits) in both "
         "modes and 200/400/600/900 in JSON mode at the default recursion limit, a value "
         "next to a string that spells it (1/'1', None/'None'/'null', 1.0/'1.0', []/'[]' ...) in one container and in "
         "consecutive calls, keys that trap code-point order; Python mode only: dicts with int / bool / None keys "
@@ -1027,6 +1028,33 @@ def _deep_cases(rng, quick):
         yield mk_deep(_deep_chain(rng, depth, shape), "deep-json-%d" % depth)
 
 
+def mk_big(v, kind):
+    """a container with very many items: both modes, the whole text and the collected lines"""
+    e = enc_val(v)
+    return {"lines": ["pp j " + e, "lc j " + e, "pp p " + e, "lc p " + e], "meta": {"kind": kind}}
+
+
+def _big_container(rng, n, shape):
+    """n items / keys: sizes beyond CPython's small-int cache (256) and other round thresholds"""
+    def cont(i):
+        return rng.choice([[i], {"v": i}, [i, [i]], {"a": [i]}])
+    if shape == "list-of-containers":
+        return [cont(i) for i in range(n)]
+    if shape == "list-of-scalars":
+        return [rng.choice([i, str(i), None, i * 0.5, True]) for i in range(n)]
+    if shape == "dict-of-containers":
+        return {"k%05d" % rng.randrange(10 ** 5) + str(i): cont(i) for i in range(n)}
+    if shape == "dict-of-scalars":
+        return {"k%d" % i: i for i in range(n)}
+    items = [cont(i) if rng.random() < 0.3 else i for i in range(n)]       # mixed
+    if not any(isinstance(x, (list, dict)) for x in items[-3:]):
+        items[-1] = cont(n)
+    return items if rng.random() < 0.5 else {"items": items, "n": n}
+
+
+_BIG_SHAPES = ["list-of-containers", "list-of-scalars", "dict-of-containers", "dict-of-scalars", "mixed"]
+
+
 def mk_seq(values, kind):
     """several values through the same printer objects, one after the other (no memory between calls)"""
     lines = []
@@ -1075,7 +1103,7 @@ def gen_cases(rng, tier):
                     yield mk({"c": a, "a": b, "b": c3}, "small-exhaustive")
                     yield mk([[a], [b, c3], {"k": [a, c3]}], "small-exhaustive")
     # 1. random nestings
-    for i in range(1700 if quick else 50000):
+    for i in range(1150 if quick else 50000):
         v = _value(rng, 0, big=(i % 3 == 0))
         off = rng.choice([0, 0, 1, 2, 3, 7, 40])
         yield mk(v, "random-big" if i % 3 == 0 else "random", off)
@@ -1100,7 +1128,7 @@ def gen_cases(rng, tier):
                 d = _dict_one_line(rng, max(4, lim_d - off + delta))
                 yield mk(_wrap(rng, d, depth), "dict-threshold%+d" % delta, off)
     # 4. wrapped lists around the wrap limit
-    for _ in range(350 if quick else 8000):
+    for _ in range(300 if quick else 8000):
         depth = rng.choice([0, 0, 1, 2, 3, 5, 10, 20])
         v = _wrapped_list(rng, 2 * depth, lim_w)
         yield mk(_wrap(rng, v, depth), "wrap-limit", 2 * depth)
@@ -1145,7 +1173,10 @@ def gen_cases(rng, tier):
     for depth in ([30, 60, 72, 73, 74, 75, 76, 80, 101] if quick else list(range(60, 104)) + [120, 150]):
         for payload in ([1, 2, 3], list(range(120)), ["ab"] * 70, {"a": 1, "b": "x"}, {"k%02d" % i: i for i in range(30)},
                         [_str_of_len(rng, 30)], [[], {}], "s"):
-            yield mk(_wrap(rng, payload, depth), "deep-%s" % ("<74" if depth < 74 else ">=74"), 2 * depth)
+            w = _wrap(rng, payload, depth)
+            kind = "deep-%s" % ("<74" if depth < 74 else ">=74")
+            # the full set of views for a third of them, text + collected lines in both modes for the others
+            yield mk(w, kind, 2 * depth) if rng.random() < 0.34 else mk_big(w, kind)
     # 9. a value next to a string that spells it, inside one container
     for _ in range(150 if quick else 3000):
         x, sp, lst = _collision_values(rng)
@@ -1214,9 +1245,19 @@ def gen_cases(rng, tier):
     # 15. CPython's str(int) limit (4300 digits): the last printable int and the first one that raises ValueError
     #     (outside the domain: oracle skips, the driver answers `err ValueError` like the real code)
     for n in (10 ** 4299, -(10 ** 4299), 10 ** 4300 - 1, 10 ** 4300, -(10 ** 4300), 10 ** 5000):
-        yield mk(n, "int-str-limit")
-        yield mk([1, {"k": [n]}], "int-str-limit")
-        yield mk({n: "key", "s": 1}, "int-str-limit")
+        yield mk_big(n, "int-str-limit")
+        yield mk_big([1, {"k": [n]}], "int-str-limit")
+        e = enc_val({n: "key", "s": 1})         # an int key: Python mode only
+        yield {"lines": ["pp p " + e, "lc p " + e], "meta": {"kind": "int-str-limit"}}
+    # 17. very many items: 255..258 (around the small-int cache), 300, 1000, 5000
+    sizes = [255, 256, 257, 258, 300, 1000] if quick else [255, 256, 257, 258, 259, 300, 512, 1000, 1025, 5000, 10000]
+    lists_only = ["list-of-containers", "list-of-scalars", "mixed"]     # (the model sorts and checks keys in O(n^2))
+    for n in sizes:
+        shapes = _BIG_SHAPES if n <= 1025 else lists_only
+        for shape in (shapes if (not quick or n in (257, 258)) else rng.sample(shapes, 2)):
+            yield mk_big(_big_container(rng, n, shape), "big-%d" % n)
+    if quick:
+        yield mk_big(_big_container(rng, 5000, rng.choice(lists_only)), "big-5000")
     # 16. very deep nesting, JSON mode (default recursion limit; the workers do not raise it)
     for c in _deep_cases(rng, quick):
         yield c
@@ -1242,7 +1283,10 @@ def search_cases(rng, tier):
 
     def mk(v, kind, off=0):
         return mk_case(v, kind, off, rng)
-    for depth in (100, 150, 199, 250, 300, 400, 500, 600, 700, 800, 900, 950):   # deep nesting first: cheap to try
+    for n in (257, 258, 300, 1000, 5000):                # very many items, then deep nesting: cheap to try
+        for shape in (_BIG_SHAPES if n <= 1000 else ["list-of-containers", "list-of-scalars", "mixed"]):
+            yield mk_big(_big_container(rng, n, shape), "search-big")
+    for depth in (100, 150, 199, 250, 300, 400, 500, 600, 700, 800, 900, 950):
         for shape in ("list", "dict", "mixed"):
             v = _deep_chain(rng, depth, shape)
             yield mk_deep(v, "search-deep") if depth >= 199 else mk(v, "search-deep")
